@@ -180,10 +180,6 @@ theorem match_postconditions :
   · intro len lo hi; unfold Gen.size_ok; simp
   · intro d lim pi; unfold Gen.angle_ok; simp
 
-theorem loop_wiring :
-    Gen.fullm_tail = "if matches: new_selector[zero_selector] = False ; unmatched = working_set.derive(selector=new_selector) ; weak = grm.PointSelection(corr, selector=np.logical_not(filt)) ; return (matches, unmatched, weak)"
-    ∧ Gen.fullm_working_init = "grm.PointSelection(corr, selector=filt)" := ⟨rfl, rfl⟩
-
 /-- non-vacuity: 5 peaks, peak 0 = zero, peak 4 weak; one match {0,1,2}, then nothing -/
 example :
     let r := fullMatch 5 2 (fun k => k < 4) (fun k => k == 0) 1
